@@ -36,6 +36,13 @@ def check_create_arcs(chk, rep, repo):
         raise AnalysisError(f"KNNSubgraph.create_arcs: expected one insertion scan, found {len(scans)}")
     sc = scans[0]
     check_knn_scan(rep, "", sc, G, allow_self_skip=True)
+    # "the smallest distances FROM that sample": d(i, j) with i the node whose list is built
+    from ..schema import weight_oriented
+    qi, cj = ("idx", ("attr", G, "nodes"), sc.i), ("idx", ("attr", G, "nodes"), sc.j)
+    for e in sc.weight_stores:
+        rep.ev("ARCS-orientation", e, weight_oriented(e.value, qi, cj),
+               "the candidate distance is not d(node i, node j) in this order: for a non-symmetric dissimilarity the "
+               "neighbours are ranked by the distance TO i, and differently from calculate_pdf")
     kparam = sc.slot
     rep.fn("ARCS-k", fn, "the insertion slot is the parameter k", kparam == ("param", fn.params[1]),
            f"slot is '{show(kparam)}'", line=sc.per.line)
@@ -352,6 +359,39 @@ def check_typestate(chk, rep, repo):
     chk.floor("create_arcs / destroy_arcs calls in the two fit methods", n, 6)
 
 
+def check_destroy(rep, repo, pre=""):
+    """destroy_arcs (and reset, which ends with it) clears the arcs of EVERY node, unconditionally: this is what the
+    typestate rule `create_arcs only on an arc-free graph` stands on."""
+    from ..schema import node_loop
+    from ..ir import facts
+    specs = {"destroy_arcs": {"adjacency": None, "n_plateaus": ("const", 0)},
+             "reset": {"pred": K("NIL"), "relevant": K("IRRELEVANT")}}
+    for meth, fields in specs.items():
+        w = graph_walk(repo, "Subgraph", meth)
+        fn = w.entry
+        for fld, want in fields.items():
+            st = [e for e in w.events if e.kind == "store" and e.fn is fn and e.target[0] == "attr" and e.target[2] == fld]
+            ok = False
+            detail = f"expected one unconditional store to .{fld} per node, in a loop over all nodes"
+            if len(st) == 1 and len(st[0].loops) == 1 and not facts(st[0].guards):
+                nl = node_loop(w.loops[st[0].loops[0]])
+                full = nl is not None and nl[0] == ("self",) and st[0].target[1] == nl[2]
+                val = st[0].value
+                okv = (val == want) if want is not None else (
+                    (val[0] == "alloc" and val[1] == "list" and not val[2]) or val == ("list", ()))
+                ok = full and okv
+                if not full:
+                    detail = f"the loop '{show(w.loops[st[0].loops[0]].domain)}' does not visit every node of the graph"
+                elif not okv:
+                    detail = f".{fld} is set to '{show(val)}'"
+            rep.fn(pre + "DESTROY", fn, f"{meth}: .{fld} is cleared for every node", ok, detail)
+    w = graph_walk(repo, "Subgraph", "reset")
+    calls = [e for e in w.events if e.kind == "call" and e.name in ("destroy_arcs", "<inline>")
+             and ("destroy_arcs" in (e.name, ) or (e.target and str(e.target[1]).endswith(".destroy_arcs")))]
+    rep.fn(pre + "DESTROY", w.entry, "reset also destroys the arcs", len(calls) >= 1 and not any(facts(e.guards) for e in calls),
+           "reset must call destroy_arcs unconditionally")
+
+
 def check(chk, repo):
     chk.explanation = EXPLANATION
     rep = Rep(chk, repo)
@@ -359,6 +399,7 @@ def check(chk, repo):
     check_pdf(chk, rep, repo)
     check_eliminate(chk, rep, repo)
     check_typestate(chk, rep, repo)
+    check_destroy(rep, repo)
     from ..common import check_model_premises
     check_model_premises(rep, repo)
     chk.undecided.append("that the k slots kept by the scan are the k smallest distances (insertion-scan loop invariant)")
